@@ -1,19 +1,23 @@
 import GoLevel.Proofs.DurableMain
 /-!
-Job steps whose storage operation fails (`Outcome.failNoEffect`, `Outcome.failEffect`): the invariant is
-preserved for every failure except the two known findings, which are excluded by hypotheses named after them:
+Job steps whose storage operation fails (`Outcome.failNoEffect`, `Outcome.failEffect`): the invariant is preserved
+for every failure of every operation, with one exclusion and one condition on the configuration:
 
-* `NoD10`: the append of a commit's record to the manifest does not fail *after the record reached the file*,
-  and the manifest `Sync` does not fail (D10: "a manifest record may reach the file although `session.commit`
-  reported failure");
-* `NoD26`: `SetMeta` does not fail after it took effect (the machine has no such step at all).
+* `Act.noSyncFault`: the manifest `Sync` of a commit does not fail (the second shape of D10; not covered);
+* `Cfg.D26Repaired` (or `Act.noD26`): a `SetMeta` that fails after it took effect keeps the invariant only with the
+  repaired cleanup of `newManifest`.
 
 Covered: create / write / sync of an output table (the half-made table is dropped, the job retries; a recovery
 gives up), the journal `newMem` creates in a recovery, the creation / write / sync of a new manifest and a
-`SetMeta` that fails without effect (the new manifest is dropped, the commit is retried), the append of a
-record to the manifest that fails without effect (`manifestFailed`: the retry writes a fresh manifest, the
-repair of D8), the removal of the old manifest (logged only, the repair of D27), and every removal of an
-obsolete file (logged only).
+`SetMeta` that fails without effect (the new manifest is dropped — or kept, not current, when `GetMeta` fails as
+well —, the commit is retried), the append of a record to the manifest that fails without effect
+(`manifestFailed`: the retry writes a fresh manifest, the repair of D8), the removal of the old manifest (logged
+only, the repair of D27), every removal of an obsolete file (logged only) — and the two operations that put the
+storage *ahead of the session* (`Inv.enter_limbo`): the append of the record failing after it reached the file
+(`inv_job_append_normal_failEffect`) and `SetMeta` failing after `CURRENT` was switched
+(`inv_job_rotSetMeta_failEffect`).  `inv_step_faults` (every good configuration, `Act.faultsOK`) and
+`inv_step_repaired` (the repaired configuration, `Act.noSyncFault`) are the two step theorems; both carry the
+standing condition `LimboSafe` in `InvL`.
 -/
 namespace GoLevel.Dur
 
@@ -33,7 +37,7 @@ theorem Inv.giveUp {cfg : Cfg} {s : St} {d d' : Disk} (h : Inv cfg s d) (hph : s
   · intro hc; exact absurd rfl hc
   · intro hc; cases hc
   · intro hc; cases hc
-  · intro _; exact ⟨rfl, rfl, rfl, hrec.idle.2.2⟩
+  · intro _; exact ⟨rfl, rfl, rfl, hrec.idle.2.2.1, rfl⟩
   · trivial
 
 /-- a job of a recovery -/
@@ -94,11 +98,13 @@ theorem inv_job_table_fault {cfg : Cfg} {s : St} {d : Disk} (h : Inv cfg s d) {j
   have hbc := early_beforeCommit he
   have hnr : ∀ m, j.pc ≠ .rotRemove m := by intro m hm; rw [hm] at he; cases he
   have hmem : (n, gs) ∈ j.outs := by rw [ho]; exact List.mem_singleton.2 rfl
+  have hnret : j.pc.retry = false := by rcases hpc with e | e | e <;> rw [e] <;> rfl
   cases hk : j.isRecov with
   | false =>
     rw [failTo_other hk]
-    apply h.table_step hj hbc hnr hmem (T0.erase n) hT hTn (.tCreate 0) (by intro m hm; cases hm) _ rfl
-    apply hok.early_next he (n, gs) (Or.inl ho) _ (.tCreate 0) rfl
+    refine h.table_step hj hbc hnr hmem (T0.erase n) hT hTn (.tCreate 0) (by intro m hm; cases hm) _ rfl ?_ hnret
+      (Or.inr rfl)
+    refine hok.early_next he (n, gs) (Or.inl ho) _ (.tCreate 0) rfl ?_ ?_ ?_ ?_ ?_ hnret
     · intro o' ho'
       show OutOK _ (.tCreate 0) 0 o'
       unfold OutOK
@@ -120,7 +126,8 @@ theorem inv_job_table_fault {cfg : Cfg} {s : St} {d : Disk} (h : Inv cfg s d) {j
         (fun _ hx => hx)
       intro mf hc k hk1 v hv t ht
       apply hT
-      have hfr := (holds_some (holds_some hfresh hc k hk1) hv).1 (n, gs) hmem
+      have hfr := ((holds_some (holds_some hfresh hc k hk1) hv).1 (n, gs) hmem).resolve_right (fun hx => by
+        have := hx.1; rw [hnret] at this; cases this)
       have := ((h.disk.allViews mf hc k hk1 v hv).tables t ht).1
       simp only at hfr
       omega
@@ -192,7 +199,8 @@ theorem inv_job_rm_noEffect {cfg : Cfg} {s : St} {d : Disk} (h : Inv cfg s d) {j
   have hpost : j.pc.post = true := by rcases hpc with ⟨e, _⟩ | ⟨e, _⟩ | ⟨e, _⟩ <;> rw [e] <;> rfl
   have hpost' : pc'.post = true := by rcases hpc with ⟨_, e⟩ | ⟨_, e⟩ | ⟨_, e⟩ <;> rw [e] <;> rfl
   have hrm := hok.removals
-  apply h.post_step (d' := d) hj hpost pc' hpost' rfl rfl rfl (fun _ _ _ _ => rfl) h.disk.tnodup h.disk.mnodup
+  apply h.post_step (d' := d) hj hpost pc' hpost' rfl rfl rfl (fun _ _ _ _ _ _ _ _ => rfl) (fun _ => rfl)
+    h.disk.tnodup h.disk.mnodup
   intro v hv
   rw [hv] at hrm
   simp only [Holds] at hrm
@@ -201,13 +209,14 @@ theorem inv_job_rm_noEffect {cfg : Cfg} {s : St} {d : Disk} (h : Inv cfg s d) {j
   · rw [e] at hrm
     subst e'
     simp only at hrm ⊢
-    refine ⟨fun m hm => hrm.1 m (List.mem_cons_of_mem _ hm), hrm.2.1, fun hk => ?_⟩
-    have := hrm.2.2 hk
+    refine ⟨fun m hm => hrm.1 m (List.mem_cons_of_mem _ hm), hrm.2.1, fun hk => ?_,
+      fun he m hm => hrm.2.2.2 he m (List.mem_cons_of_mem _ hm)⟩
+    have := hrm.2.2.1 hk
     cases this
   · rw [e] at hrm
     subst e'
     simp only at hrm ⊢
-    exact fun t ht => hrm t (List.mem_cons_of_mem _ ht)
+    exact ⟨fun t ht => hrm.1 t (List.mem_cons_of_mem _ ht), fun he => nomatch hrm.2 he⟩
   · rw [e] at hrm
     subst e'
     simp only at hrm ⊢
@@ -282,6 +291,11 @@ theorem inv_job_back_to_append {cfg : Cfg} {s : St} {d : Disk} (h : Inv cfg s d)
     obtain ⟨e, he⟩ := hok.edit_some hpost
     have := h.other_manifest_step hj hnr hbc ms hms hnd j' s.nextFile (Nat.le_refl _) (by intro m hm; cases hm) rfl
     apply this
+    case hlimbo =>
+      rcases hp : s.phase with _ | _ | _
+      · exact absurd hp (h.not_crashed hj)
+      · exact LimboOK.of_none (h.limbo_none_of_recovering (by rw [hp]; decide))
+      · exact (h.run hp).limbo.job_pc hj j' _ rfl rfl (fun _ => rfl) (Or.inr rfl) rfl (Nat.le_refl _)
     rw [upd_eq]
     apply JobOK.late_next (d' := { d with manifests := ms }) hok hlate j' ⟨rfl, rfl, rfl, rfl, rfl⟩
       ⟨(by intro x; cases x), rfl⟩ s.nextFile s.live s.stJn s.stSq s.manifestFd s.manifestOpen (Nat.le_refl _) rfl
@@ -353,7 +367,7 @@ theorem JobOK.rot_mc {cfg : Cfg} {s : St} {d : Disk} {j : Job} (h : JobOK cfg s 
   have hm := h.manifest
   unfold JobManifestOK at hm
   rw [he] at hm
-  rcases hpc with e' | e' | e' <;> rw [e'] at hm <;> simp only [JobManifest] at hm <;> exact hm.2.1
+  rcases hpc with e' | e' | e' <;> rw [e'] at hm <;> simp only [JobManifest] at hm <;> exact hm.2.1.1
 
 /-- the creation of the new manifest fails -/
 theorem inv_job_append_rotate_fault {cfg : Cfg} {s : St} {d : Disk} (h : Inv cfg s d) {j : Job}
@@ -392,7 +406,7 @@ theorem inv_job_append_normal_fault {cfg : Cfg} {s : St} {d : Disk} (h : Inv cfg
   | none => simp [stepJob, hpc, he, hopen, hm, hmfl] at hs
   | some m =>
     simp only [stepJob, hpc, he, hopen, hmfl, hm, Disk.exec, Outcome.failed, if_true, Bool.false_eq_true,
-      not_true_eq_false, or_self, if_false, Option.some.injEq, Prod.mk.injEq] at hs
+      not_true_eq_false, or_self, if_false, Option.some.injEq, Prod.mk.injEq, reduceCtorEq] at hs
     obtain ⟨rfl, rfl⟩ := hs
     have h1 := h.set_manifestFailed true
     have := inv_job_back_to_append (s := { s with manifestFailed := true }) h1 hj (by rw [hpc]; rfl)
@@ -431,7 +445,7 @@ theorem inv_job_rot_fault {cfg : Cfg} {s : St} {d : Disk} (h : Inv cfg s d) {j :
     exact inv_job_newManifest_fault h hj hbc hlate hmc M0 hM0 hnd0
   · have hone := hnd26 ⟨m, e'⟩
     subst hone
-    simp only [stepJob, e', Disk.exec, Outcome.failed, if_true] at hs
+    simp only [stepJob, e', Disk.exec, Outcome.failed, if_true, reduceCtorEq, if_false] at hs
     have hj' : ({ s with manifestFailed := true } : St).job = some j := hj
     -- if the `GetMeta` of the cleanup fails as well the new manifest (not current) is kept; the commit is retried
     have A := inv_job_back_to_append (h.set_manifestFailed true) hj' hbc hlate d.manifests (fun _ _ => rfl) h.disk.mnodup
@@ -446,38 +460,364 @@ theorem inv_job_rot_fault {cfg : Cfg} {s : St} {d : Disk} (h : Inv cfg s d) {j :
 theorem inv_job_rotRemove_any {cfg : Cfg} {s : St} {d : Disk} (h : Inv cfg s d) {j : Job}
     (hj : s.job = some j) {m : Nat} (hpc : j.pc = .rotRemove m) {rot : Bool} {o : Outcome}
     {s' : St} {d' : Disk} (hs : stepJob cfg s d j rot o = some (s', d')) : Inv cfg s' d' := by
+  cases o with
+  | ok => exact inv_job_rotRemove h hj hpc hs
+  | failEffect =>
+    have : stepJob cfg s d j rot .failEffect = stepJob cfg s d j rot .ok := by simp [stepJob, hpc, Disk.exec]
+    rw [this] at hs
+    exact inv_job_rotRemove h hj hpc hs
+  | failNoEffect =>
+    have hok := h.job
+    rw [hj] at hok
+    have hok : JobOK cfg s d j := hok
+    obtain ⟨e, he⟩ := hok.edit_some (by rw [hpc]; rfl)
+    have hl : s.limbo = none := h.limbo_none_of_post hj he (by rw [hpc]; rfl)
+    simp only [stepJob, hpc, Option.some.injEq, Prod.mk.injEq] at hs
+    obtain ⟨rfl, rfl⟩ := hs
+    have hst : ({ s with manifestFd := some m, manifestOpen := true, manifestFailed := false, limbo := none,
+                         job := some { j with pc := .install } } : St) =
+        { ({ s with manifestFd := some m, manifestOpen := true, job := some { j with pc := .install } } : St) with
+          manifestFailed := false } := by
+      cases s
+      simp only at hl
+      simp only [hl]
+    have key : Inv cfg { s with manifestFd := some m, manifestOpen := true, manifestFailed := false, limbo := none,
+                                job := some { j with pc := .install } } d := by
+      rw [hst]
+      refine (inv_rotRemove_core h hj hpc d.manifests (fun _ _ => rfl) h.disk.mnodup).set_manifestFailed false ?_
+      intro hx
+      have : s.limbo.isSome = true := hx
+      rw [hl] at this; cases this
+    cases hf : s.manifestFd with
+    | none => exact key
+    | some old => exact key
+
+/-! ## the storage gets ahead of the session -/
+
+/-- An operation made the job's edit visible in the manifest `CURRENT` names and reported an error all the same (the
+    append of the record, `SetMeta`): the session fails the commit and retries it through `newManifest`, while every
+    crash image shows the edit or may show it.  The ghost `St.limbo` records the edit; `d'` is the storage after the
+    operation, `mf'` the manifest `CURRENT` names there. -/
+theorem Inv.enter_limbo {cfg : Cfg} {s : St} {d d' : Disk} (h : Inv cfg s d) {j : Job} (hj : s.job = some j)
+    (hph : s.phase = .running) {e : MRec} (he : j.edit = some e)
+    (hpcs : j.pc = .append ∨ ∃ m, j.pc = .rotSetMeta m)
+    (hjr : d'.journals = d.journals) (htb : d'.tables = d.tables)
+    (hdisk : DiskOK cfg d' (must s) (issuedGrps s)) (hmm : ManifestMono cfg d')
+    {mf' : LogFile MRec} (hcur' : curManifest d' = some mf')
+    (hviews : ∀ k ≤ mf'.unsynced.length, Holds (viewAt cfg mf' k) fun v =>
+        v.sq ≤ sqCap s j ∧ v.nf ≤ s.nextFile ∧ v.jn ≤ s.jcur ∧ ∀ o ∈ j.outs, v.nf ≤ o.1 ∨ o.1 ∈ v.live)
+    (hlast : Holds (viewAt cfg mf' mf'.unsynced.length) (MirrorE s e))
+    (hmfd : s.manifestFd = d'.current ∨ Holds s.manifestFd fun o => Holds d'.current fun c => o < c)
+    (hcurlt : Holds d'.current (· < s.nextFile))
+    (hrel : Holds (viewAt cfg mf' 0) fun v0' => Holds (curManifest d) fun mf => Holds (viewAt cfg mf 0) fun v0 =>
+      v0.jn ≤ v0'.jn) :
+    Inv cfg { s with manifestFailed := true, limbo := some e, job := some { j with pc := .append } } d' := by
+  have hok := h.job
+  rw [hj] at hok
+  have hok : JobOK cfg s d j := hok
+  have hbc : j.pc.beforeCommit = true := by
+    rcases hpcs with e1 | ⟨m, e1⟩ <;> rw [e1] <;> rfl
+  have hlate : j.pc ≠ .mkJournal ∧ j.pc.tablesDone = true := by
+    rcases hpcs with e1 | ⟨m, e1⟩ <;> rw [e1] <;> exact ⟨(by intro x; cases x), rfl⟩
+  have hnr : ∀ m, j.pc ≠ .rotRemove m := by intro m hm; rw [hm] at hbc; cases hbc
+  obtain ⟨_, _, _, _, _, hjnle, _, _, hsqle, hlive⟩ := h.commit_view' hj he hbc hlate
+  have hnrec : j.isRecov = false := by
+    cases hk : j.isRecov with
+    | false => rfl
+    | true => have := hok.recov_phase hk; rw [hph] at this; cases this
+  have hmk := hok.mk_none hnrec
+  have hshape := hok.shape
+  rw [he] at hshape
+  have h1 := h.set_manifestFailed true
+  have hrun := h1.run hph
+  let j' : Job := { j with pc := .append }
+  have hlv' : lastView cfg d' = viewAt cfg mf' mf'.unsynced.length := lastView_eq hcur'
+  have hlimbo : LimboOK { s with manifestFailed := true, limbo := some e, job := some j' } d' := by
+    unfold LimboOK
+    show LimboFacts _ d' e
+    refine ⟨rfl, hshape.2.1, hshape.2.2, hjnle, hsqle, fun t ht => ⟨(hlive t ht).1, ?_⟩, Or.inr rfl, Or.inl ⟨he, rfl⟩⟩
+    have : tableGrpsOf d' t = tableGrpsOf d t := by unfold tableGrpsOf; rw [htb]
+    rw [this]
+    exact (hlive t ht).2
+  obtain ⟨k1, k2, k3, k4, k5, k6, k7, k8, k9, k10, k11, k12⟩ := hok
+  constructor
+  · exact hdisk
+  · exact hmm
+  · intro _
+    unfold ViewBounds
+    rw [hcur']
+    intro k hk
+    refine (hviews k hk).imp (fun v hv => ⟨?_, hv.2.1, fun _ => hv.2.2.1⟩)
+    have : seqHi { s with manifestFailed := true, limbo := some e, job := some j' } = sqCap s j := by
+      unfold seqHi sqCap
+      simp only [Option.isSome_some, or_true, if_true]
+      rfl
+    rw [this]
+    exact hv.1
+  · intro _
+    exact RunOK.job_step_lb (d' := d') hrun j' s.nextFile s.live s.stJn s.stSq s.manifestFd s.manifestOpen (some e)
+      (Nat.le_refl _) hjr ⟨by
+        unfold MfdOK
+        simp only [St.upd, Option.map_some]
+        rcases hmfd with hx | hx
+        · exact Or.inl hx
+        · exact Or.inr ⟨rfl, hx⟩, hrun.mfd.2⟩ hcurlt
+      (fun _ _ => ⟨by
+        unfold FlushPending
+        show Holds' s.job _
+        rw [hj]
+        exact fun _ => hbc, rfl, rfl⟩)
+      (by rw [hcur']; exact hrel) hlimbo
+  · intro hr
+    have : s.phase = .recovering := hr
+    rw [hph] at this; cases this
+  · intro hc
+    have : s.phase = .crashed := hc
+    rw [hph] at this; cases this
+  · show JobOK cfg _ d' j'
+    refine ⟨k1, k2.transport rfl rfl rfl rfl rfl rfl rfl rfl rfl rfl rfl rfl (fun _ => hbc) rfl rfl (fun _ => rfl), ?_,
+      ⟨k4.1, fun _ => ?_⟩, k5, ?_, trivial, ?_, ?_, (fun hn => by
+        have : j.edit = none := hn
+        rw [he] at this; cases this), ?_, (fun hb => by cases hb)⟩
+    · unfold JobManifestOK
+      show match j.edit with
+        | some e => JobManifest cfg _ d' e .append
+        | none => _
+      rw [he]
+      simp only [JobManifest]
+      unfold Settled
+      rw [hcur']
+      refine ⟨(fun _ hl => by cases hl), ?_⟩
+      rw [hlv']
+      exact hlast.imp (fun v hv =>
+        (MirrorL.of_some (s := { s with manifestFailed := true, limbo := some e, job := some j' }) rfl).2 hv)
+    · apply holds_of_some hcur'
+      intro k hk
+      refine (hviews k hk).imp (fun v hv => ⟨fun o ho => (hv.2.2.2 o ho).imp id (fun hin => ⟨rfl, rfl, he.symm, hin⟩),
+        fun n hn => ?_⟩)
+      have : j.mkJournal = some n := hn
+      rw [hmk] at this; cases this
+    · intro i o hio
+      show OutOK d' .append i o
+      unfold OutOK
+      intro _
+      rw [htb]
+      exact holds_of_some (JobOK.outs_on_disk ⟨k1, k2, k3, k4, k5, k6, k7, k8, k9, k10, k11, k12⟩ hbc hlate.2 o
+        (List.mem_of_getElem? hio)) rfl
+    · unfold MkJournalOK
+      show match j.mkJournal with
+        | none => True
+        | some n => _
+      rw [hmk]
+      trivial
+    · rw [hlv']
+      exact hlast.imp (fun v _ => late_not_rm (j := j')
+        ⟨(by intro l x; cases x), (by intro l x; cases x), (by intro l x; cases x)⟩)
+    · exact Holds'.imp (o := j.edit) k11 (fun e0 he0 => he0.transport (j' := j') rfl rfl (fun _ => rfl) (fun _ => hbc)
+        (fun _ => rfl) (fun _ t _ => by rw [htb]))
+
+theorem JobOK.running_of_not_recov {cfg : Cfg} {s : St} {d : Disk} {j : Job} (h : JobOK cfg s d j)
+    (hk : j.isRecov = false) : s.phase = .running := by
+  have hkind := h.kind
+  unfold JobKindOK at hkind
+  unfold Job.isRecov at hk
+  cases hkk : j.kind <;> rw [hkk] at hk hkind <;> simp_all
+
+theorem giveUp_limbo (s : St) (b : Bool) (l : Option MRec) :
+    Dur.giveUp { s with manifestFailed := b, limbo := l } = Dur.giveUp s := rfl
+
+theorem stepJob_append_normal_failEffect {cfg : Cfg} {s : St} {d : Disk} {j : Job} {e : MRec} {m : Nat}
+    (hpc : j.pc = .append) (he : j.edit = some e) (hopen : s.manifestOpen = true) (hm : s.manifestFd = some m)
+    (hmf : s.manifestFailed = false) :
+    stepJob cfg s d j false .failEffect =
+      some (failTo { s with manifestFailed := true, limbo := some e } j .append,
+            { d with manifests := d.manifests.modify m (·.append { e with nf := s.nextFile }) }) := by
+  simp [stepJob, hpc, he, hopen, hm, hmf, Disk.exec, Disk.apply, Outcome.failed]
+
+/-- **the first shape of D10**: the append of the commit's record to the manifest reports an error after the record
+    reached the file.  The commit fails (`manifestFailed`), every crash image may show the edit: `St.limbo`. -/
+theorem inv_job_append_normal_failEffect {cfg : Cfg} {s : St} {d : Disk} (h : Inv cfg s d) {j : Job}
+    (hj : s.job = some j) (hpc : j.pc = .append) (hopen : s.manifestOpen = true) (hmfl : s.manifestFailed = false)
+    {s' : St} {d' : Disk} (hs : stepJob cfg s d j false .failEffect = some (s', d')) : Inv cfg s' d' := by
+  have hok := h.job
+  rw [hj] at hok
+  have hok : JobOK cfg s d j := hok
+  have hnr : ∀ m, j.pc ≠ .rotRemove m := by rw [hpc]; intro m hm; cases hm
+  have hl : s.limbo = none := h.limbo_none (fun _ => hmfl)
+  have hfd := (h.mfd hj).fd hj hnr hl
+  cases he : j.edit with
+  | none => simp [stepJob, hpc, he] at hs
+  | some e =>
+    cases hm : s.manifestFd with
+    | none => simp [stepJob, hpc, he, hopen, hm, hmfl] at hs
+    | some m =>
+      rw [stepJob_append_normal_failEffect hpc he hopen hm hmfl] at hs
+      simp only [Option.some.injEq, Prod.mk.injEq] at hs
+      obtain ⟨rfl, rfl⟩ := hs
+      have hc : d.current = some m := by rw [← hfd, hm]
+      have hbc : j.pc.beforeCommit = true := by rw [hpc]; rfl
+      have hlate : j.pc ≠ .mkJournal ∧ j.pc.tablesDone = true := by rw [hpc]; exact ⟨(by intro x; cases x), rfl⟩
+      obtain ⟨mf, v0, v, hparts, hlv, hvl, hed, hvok', hmono'⟩ := h.commit_view hj he hbc hlate hl
+      have hcur := hparts.cur
+      have hph0 := h.not_crashed hj
+      have hb := h.bounds hph0
+      have hmir : Mirror s v := by
+        have := h.mirror_nolimbo hj hbc hl
+        rw [hlv] at this
+        exact this
+      let e' : MRec := { e with nf := s.nextFile }
+      have htorn : e'.torn = false := hed.shape.2.1
+      have hstep : ((replayM cfg mf.all).step cfg e').view? =
+          some ⟨applyEdit v.live e, e.jn.getD v.jn, e.sq.getD v.sq, s.nextFile⟩ := by
+        rw [viewAt_all] at hvl
+        exact view_step hvl e' htorn
+      let d1 : Disk := { d with manifests := d.manifests.modify m (·.append e') }
+      have hdisk : DiskOK cfg d1 (must s) (issuedGrps s) := by
+        apply h.disk.manifest_append hc e'
+        intro mf1 v01 hc1 hv01
+        rw [hcur] at hc1; cases hc1
+        rw [hparts.hv0] at hv01; cases hv01
+        exact ⟨_, hstep, hvok', hmono'⟩
+      have hmm : ManifestMono cfg d1 := by
+        apply h.mm.append hc e'
+        intro mf1 hc1
+        rw [hcur] at hc1; cases hc1
+        rw [hvl, hstep]
+        simp only [Holds]
+        have hcl := h.cur_lt hj
+        rw [hc] at hcl
+        exact ⟨hcl, hed.mono.2.1, (hb.all mf hcur _ (Nat.le_refl _) v hvl).2.1⟩
+      cases hk : j.isRecov with
+      | true =>
+        rw [failTo_recov hk, giveUp_limbo]
+        exact h.giveUp (hok.recov_phase hk) hdisk hmm
+      | false =>
+        rw [failTo_other hk]
+        have hph := hok.running_of_not_recov hk
+        have hcur1 : curManifest d1 = some (mf.append e') := by
+          show curManifest { d with manifests := d.manifests.modify m (·.append e') } = _
+          rw [curManifest_modify hc, hcur]; rfl
+        have hlen : (mf.append e').unsynced.length = mf.unsynced.length + 1 := by simp [LogFile.append]
+        obtain ⟨m1, m2, m3⟩ := hmir
+        refine h.enter_limbo (d' := d1) hj hph he (Or.inl hpc) rfl rfl hdisk hmm hcur1 ?_ ?_
+          (Or.inl hfd) (h.cur_lt hj) ?_
+        · intro k hk'
+          rw [hlen] at hk'
+          rcases Nat.lt_or_ge k (mf.unsynced.length + 1) with hlt | hge
+          · have hk0 : k ≤ mf.unsynced.length := Nat.le_of_lt_succ hlt
+            rw [viewAt_append_le cfg mf e' hk0]
+            obtain ⟨vk, hvk, _, _⟩ := hparts.views k hk0
+            apply holds_of_some hvk
+            have hbv := hb.all mf hcur k hk0 vk hvk
+            rw [seqHi_eq (not_trWindow_of_bc hj hbc hl)] at hbv
+            have hf := holds_some (holds_some (hok.fresh.2 hbc) hcur k hk0) hvk
+            refine ⟨Nat.le_trans hbv.1 (h.seq_le_sqCap hj), hbv.2.1, hbv.2.2 hph, fun o ho => Or.inl ?_⟩
+            exact (hf.1 o ho).resolve_right (fun hx => by have := hx.2.1; rw [hl] at this; cases this)
+          · have hk1 : k = mf.unsynced.length + 1 := Nat.le_antisymm hk' hge
+            rw [hk1, viewAt_append_last, hstep]
+            refine ⟨hed.mono.2.2.1, Nat.le_refl _, hed.mono.2.2.2.1 hph, fun o ho => Or.inr ?_⟩
+            refine mem_applyEdit.2 (Or.inr ?_)
+            rw [hed.shape.1]
+            exact List.mem_map.2 ⟨o, ho, rfl⟩
+        · rw [hlen, viewAt_append_last, hstep]
+          exact ⟨by rw [m1], by rw [m2], by rw [m3]⟩
+        · rw [viewAt_append_le cfg mf e' (Nat.zero_le _), hparts.hv0]
+          simp only [Holds, hcur, hparts.hv0, Nat.le_refl]
+
+theorem stepJob_rotSetMeta_failEffect_kept {cfg : Cfg} {s : St} {d : Disk} {j : Job} {e : MRec} {m : Nat} {rot : Bool}
+    (hpc : j.pc = .rotSetMeta m) (he : j.edit = some e)
+    (hkeep : (cfg.cleanupChecksCurrent && (if rot then cfg.cleanupKeepsWhenGetMetaFails else true)) = true) :
+    stepJob cfg s d j rot .failEffect =
+      some (failTo { s with manifestFailed := true, limbo := some e } j .append, { d with current := some m }) := by
+  cases rot <;> simp_all [stepJob, Disk.exec, Disk.apply, Outcome.failed]
+
+/-- **D26**: `SetMeta` reports an error after `CURRENT` was switched to the new manifest.  The repaired cleanup of
+    `newManifest` asks `GetMeta` and keeps the file `CURRENT` names (or, if `GetMeta` fails as well, keeps it to be
+    safe); the commit fails (`manifestFailed`), the new manifest shows the edit: `St.limbo`. -/
+theorem inv_job_rotSetMeta_failEffect {cfg : Cfg} (hg : cfg.Good) {s : St} {d : Disk} (h : Inv cfg s d) {j : Job}
+    (hj : s.job = some j) {m : Nat} (hpc : j.pc = .rotSetMeta m) {rot : Bool}
+    (hkeep : (cfg.cleanupChecksCurrent && (if rot then cfg.cleanupKeepsWhenGetMetaFails else true)) = true)
+    {s' : St} {d' : Disk} (hs : stepJob cfg s d j rot .failEffect = some (s', d')) : Inv cfg s' d' := by
   have hok := h.job
   rw [hj] at hok
   have hok : JobOK cfg s d j := hok
   obtain ⟨e, he⟩ := hok.edit_some (by rw [hpc]; rfl)
-  have hman := hok.manifest
-  unfold JobManifestOK at hman
-  rw [he] at hman
-  simp only [hpc, JobManifest] at hman
-  obtain ⟨hc, hfdne, _⟩ := hman
-  simp only [stepJob, hpc, Option.some.injEq, Prod.mk.injEq] at hs
+  rw [stepJob_rotSetMeta_failEffect_kept hpc he hkeep] at hs
+  simp only [Option.some.injEq, Prod.mk.injEq] at hs
   obtain ⟨rfl, rfl⟩ := hs
-  cases hf : s.manifestFd with
-  | none =>
-    simp only
-    exact (inv_rotRemove_core h hj hpc d.manifests (fun _ _ => rfl) h.disk.mnodup).set_manifestFailed false
-  | some old =>
-    simp only
-    cases o with
-    | failNoEffect =>
-      exact (inv_rotRemove_core h hj hpc d.manifests (fun _ _ => rfl) h.disk.mnodup).set_manifestFailed false
-    | ok =>
-      refine (inv_rotRemove_core h hj hpc (d.manifests.erase old) ?_
-        (pairwise_erase _ h.disk.mnodup)).set_manifestFailed false
-      intro c hcc
-      rw [hc] at hcc; cases hcc
-      rw [lookup_erase, if_neg (fun ec => hfdne (by rw [hf, ec]))]
-    | failEffect =>
-      refine (inv_rotRemove_core h hj hpc (d.manifests.erase old) ?_
-        (pairwise_erase _ h.disk.mnodup)).set_manifestFailed false
-      intro c hcc
-      rw [hc] at hcc; cases hcc
-      rw [lookup_erase, if_neg (fun ec => hfdne (by rw [hf, ec]))]
+  have hnr : ∀ m, j.pc ≠ .rotRemove m := by rw [hpc]; intro m hm; cases hm
+  obtain ⟨hsett, ⟨hmc, hcm'⟩, hmlt, hlk⟩ := hok.rot_facts he (m := m)
+    (P := Holds (lookup d.manifests m) fun mf => Holds mf.synced.head? fun r =>
+      mf = ⟨[{ snapshotRec cfg s e with nf := r.nf }], []⟩ ∧ m < r.nf ∧ r.nf ≤ s.nextFile ∧
+      (∀ t ∈ applyEdit s.live e, t < r.nf) ∧ e.jn.getD s.stJn < r.nf) (by rw [hpc]; rfl)
+  rw [holds_iff] at hlk
+  obtain ⟨mf1, hlk, hr1⟩ := hlk
+  rw [holds_iff] at hr1
+  obtain ⟨r1, _, hmf1, hr1a, hr1b, hr1c, hr1d⟩ := hr1
+  subst hmf1
+  generalize hx : r1.nf = x at *
+  have hbc : j.pc.beforeCommit = true := by rw [hpc]; rfl
+  have hlate : j.pc ≠ .mkJournal ∧ j.pc.tablesDone = true := by rw [hpc]; exact ⟨(by intro x; cases x), rfl⟩
+  obtain ⟨mf, v0, hparts, hvok', hmono', hjnle, hsqcap, hjcur, _, _⟩ := h.commit_view' hj he hbc hlate
+  have hcur := hparts.cur
+  have hsv : viewAt cfg ⟨[{ snapshotRec cfg s e with nf := x }], []⟩ 0 =
+      some ⟨applyEdit s.live e, e.jn.getD s.stJn, e.sq.getD s.stSq, x⟩ := snapshot_view' cfg hg s e x
+  let v' : MView := ⟨applyEdit s.live e, e.jn.getD s.stJn, e.sq.getD s.stSq, x⟩
+  have hvok'' : ViewOK d (must s) (issuedGrps s) v' := hvok'.with_nf hr1c hr1d
+  let d1 : Disk := { d with current := some m }
+  have hcur1 : curManifest d1 = some ⟨[{ snapshotRec cfg s e with nf := x }], []⟩ := by
+    show (some m).bind (lookup d.manifests) = _
+    simp [hlk]
+  have hdisk : DiskOK cfg d1 (must s) (issuedGrps s) :=
+    h.disk.set_meta hlk rfl hsv hvok'' (fun mf1 v01 hc1 hv01 => by
+      rw [hcur] at hc1; cases hc1
+      rw [hparts.hv0] at hv01; cases hv01
+      exact hmono')
+  have hmm : ManifestMono cfg d1 := ManifestMono.single (d := d1) (m := m) hcur1 rfl rfl hsv hr1a
+  have hshape := hok.shape
+  rw [he] at hshape
+  cases hk : j.isRecov with
+  | true =>
+    rw [failTo_recov hk, giveUp_limbo]
+    exact h.giveUp (hok.recov_phase hk) hdisk hmm
+  | false =>
+    rw [failTo_other hk]
+    have hph := hok.running_of_not_recov hk
+    refine h.enter_limbo (d' := d1) hj hph he (Or.inr ⟨m, hpc⟩) rfl rfl hdisk hmm hcur1 ?_ ?_ (Or.inr ?_) hmlt ?_
+    · intro k hk'
+      have : k = 0 := by simpa using hk'
+      subst this
+      rw [hsv]
+      refine ⟨hsqcap, hr1b, hjcur hph, fun o ho => Or.inr ?_⟩
+      refine mem_applyEdit.2 (Or.inr ?_)
+      rw [hshape.1]
+      exact List.mem_map.2 ⟨o, ho, rfl⟩
+    · show Holds (viewAt cfg _ 0) _
+      rw [hsv]
+      exact ⟨rfl, rfl, rfl⟩
+    · -- the session's descriptor is the old manifest, below the new one
+      have hm := h.mfd hj
+      unfold MfdOK at hm
+      rw [hj] at hm
+      simp only [Option.map_some, hpc] at hm
+      show Holds s.manifestFd fun o => Holds (some m) fun c => o < c
+      cases hc : d.current with
+      | none =>
+        have := hparts.cur
+        unfold curManifest at this
+        rw [hc] at this
+        cases this
+      | some c =>
+        rw [hc] at hm hcm'
+        have hcm : c < m := hcm'
+        rcases hm with hm | ⟨_, hm⟩
+        · rw [hm]; exact hcm
+        · refine hm.imp (fun o ho => ?_)
+          have : o < c := ho
+          exact Nat.lt_trans this hcm
+    · rw [hsv]
+      simp only [Holds, hcur, hparts.hv0]
+      exact hmono'
 
 /-! ## the dispatcher -/
 
@@ -487,36 +827,36 @@ theorem stepJob_no_op {cfg : Cfg} {s : St} {d : Disk} {j : Job} {rot : Bool} (o 
     stepJob cfg s d j rot o = stepJob cfg s d j rot .ok := by
   rcases hpc with e | e | e | e | e | e <;> simp [stepJob, e]
 
-/-- every step of a job preserves the invariant, whatever its storage operation answers, the two known findings
-    excepted -/
+/-- the repairs of D26 (commits 8a67fea, 98bd5c2) -/
+def Cfg.D26Repaired (cfg : Cfg) : Prop :=
+  cfg.cleanupChecksCurrent = true ∧ cfg.cleanupKeepsWhenGetMetaFails = true
+
+/-- every step of a job preserves the invariant, whatever its storage operation answers — except a failing manifest
+    `Sync` (`noSyncFault`), and, in the code before the repair of D26, a `SetMeta` that fails after it took effect -/
 theorem inv_job_step_any {cfg : Cfg} (hg : cfg.Good) {s : St} {d : Disk} (h : Inv cfg s d) {j : Job}
-    (hj : s.job = some j) {rot : Bool} {o : Outcome} (h10 : (Act.job rot o).noD10 s = true)
-    (h26 : (Act.job rot o).noD26 s = true) {s' : St} {d' : Disk}
+    (hj : s.job = some j) {rot : Bool} {o : Outcome} (hsync : (Act.job rot o).noSyncFault s = true)
+    (h26 : (Act.job rot o).noD26 s = true ∨ cfg.D26Repaired) {s' : St} {d' : Disk}
     (hs : stepJob cfg s d j rot o = some (s', d')) : Inv cfg s' d' := by
   by_cases hok : o = .ok
   · subst hok; exact inv_job_step hg h hj hs
   have hfail : o.failed = true := by cases o <;> simp_all [Outcome.failed]
-  simp only [Act.noD10, Act.noD26, hj] at h10 h26
+  simp only [Act.noSyncFault, Act.noD26, hj] at hsync h26
   cases hpc : j.pc with
   | tCreate i => exact inv_job_table_step_fault h hj (Or.inl hpc) hfail hs
   | tWrite i => exact inv_job_table_step_fault h hj (Or.inr (Or.inl hpc)) hfail hs
   | tSync i => exact inv_job_table_step_fault h hj (Or.inr (Or.inr hpc)) hfail hs
   | mkJournal => exact inv_job_mkJournal_fault h hj hpc hfail hs
   | append =>
-    rw [hpc] at h10
-    simp only at h10
     by_cases hr : rot = true ∨ s.manifestOpen = false ∨ s.manifestFailed = true
     · exact inv_job_append_rotate_fault h hj hpc hr hfail hs
     · have h1 : rot = false := by cases rot <;> simp_all
       have h2 : s.manifestOpen = true := by cases hm : s.manifestOpen <;> simp_all
       have h3 : s.manifestFailed = false := by cases hm : s.manifestFailed <;> simp_all
-      have h4 : o = .failNoEffect := by
-        cases o
-        · exact absurd rfl hok
-        · rfl
-        · simp [h1, h2, h3] at h10
-      subst h1; subst h4
-      exact inv_job_append_normal_fault h hj hpc h2 h3 hs
+      subst h1
+      cases o with
+      | ok => exact absurd rfl hok
+      | failNoEffect => exact inv_job_append_normal_fault h hj hpc h2 h3 hs
+      | failEffect => exact inv_job_append_normal_failEffect h hj hpc h2 h3 hs
   | earlyRm => rw [stepJob_no_op o (by simp [hpc])] at hs; exact inv_job_step hg h hj hs
   | rotWrite m =>
     exact inv_job_rot_fault h hj (Or.inl hpc) hfail (fun ⟨m', hm'⟩ => by rw [hpc] at hm'; cases hm') hs
@@ -525,16 +865,18 @@ theorem inv_job_step_any {cfg : Cfg} (hg : cfg.Good) {s : St} {d : Disk} (h : In
   | rotSetMeta m =>
     rw [hpc] at h26
     simp only at h26
-    refine inv_job_rot_fault h hj (Or.inr (Or.inr hpc)) hfail (fun _ => ?_) hs
-    cases o
-    · exact absurd rfl hok
-    · rfl
-    · simp at h26
+    cases o with
+    | ok => exact absurd rfl hok
+    | failNoEffect => exact inv_job_rot_fault h hj (Or.inr (Or.inr hpc)) hfail (fun _ => rfl) hs
+    | failEffect =>
+      rcases h26 with h26 | ⟨c1, c2⟩
+      · simp at h26
+      · exact inv_job_rotSetMeta_failEffect hg h hj hpc (by rw [c1, c2]; cases rot <;> rfl) hs
   | rotRemove m => exact inv_job_rotRemove_any h hj hpc hs
   | sync =>
-    rw [hpc] at h10
-    simp only at h10
-    exact absurd (by simpa using h10) hok
+    rw [hpc] at hsync
+    simp only at hsync
+    exact absurd (by simpa using hsync) hok
   | install => rw [stepJob_no_op o (by simp [hpc])] at hs; exact inv_job_step hg h hj hs
   | rmJ l =>
     cases l with
@@ -562,13 +904,12 @@ theorem inv_job_step_any {cfg : Cfg} (hg : cfg.Good) {s : St} {d : Disk} (h : In
       | failEffect => rw [stepJob_rm_failEffect (Or.inr (Or.inr hpc))] at hs; exact inv_job_step hg h hj hs
   | done => rw [stepJob_no_op o (by simp [hpc])] at hs; exact inv_job_step hg h hj hs
 
-/-- every step of the machine under storage faults: every failure of every storage operation except D10 and D26 -/
-theorem inv_step_faults {cfg : Cfg} (hg : cfg.Good) {s : St} {d : Disk}
+/-- every step of the machine under storage faults: every failure of every storage operation except a failing manifest
+    `Sync`, and (before the repair of D26) a `SetMeta` that fails with effect; `LimboSafe` is the standing condition -/
+theorem inv_step_anyfault {cfg : Cfg} (hg : cfg.Good) {s : St} {d : Disk}
     (h : Inv cfg s d) {a : Act} (hcs : a.writerFaultFree = true ∨ cfg.consumeSeqOnJournalError = true)
-    (ha : a.faultsOK (s, d) = true) {s' : St} {d' : Disk}
-    (hs : step cfg s d a = some (s', d')) : Inv cfg s' d' := by
-  simp only [Act.faultsOK, Bool.and_eq_true] at ha
-  obtain ⟨h10, h26⟩ := ha
+    (hsync : a.noSyncFault s = true) (h26 : a.noD26 s = true ∨ cfg.D26Repaired) (hlim : LimboSafe cfg s)
+    {s' : St} {d' : Disk} (hs : step cfg s d a = some (s', d')) : Inv cfg s' d' := by
   cases a with
   | job rot o =>
     simp only [step] at hs
@@ -576,7 +917,7 @@ theorem inv_step_faults {cfg : Cfg} (hg : cfg.Good) {s : St} {d : Disk}
     | none => rw [hj] at hs; cases hs
     | some j =>
       rw [hj] at hs
-      exact inv_job_step_any hg h hj h10 h26 hs
+      exact inv_job_step_any hg h hj hsync h26 hs
   | wAppend recs sync o =>
     refine inv_wAppend_any h (fun hf => ?_) hs
     rcases hcs with h1 | h1
@@ -589,7 +930,7 @@ theorem inv_step_faults {cfg : Cfg} (hg : cfg.Good) {s : St} {d : Disk}
     · exact h1
   | rotate o =>
     cases o with
-    | ok => exact inv_step hg h (a := .rotate .ok) rfl hs
+    | ok => exact inv_step hg h (a := .rotate .ok) rfl hlim hs
     | failEffect => exact inv_rotate_failEffect h hs
     | failNoEffect =>
       -- `Create` failed, nothing happened: `newMem` returns the error
@@ -599,71 +940,100 @@ theorem inv_step_faults {cfg : Cfg} (hg : cfg.Good) {s : St} {d : Disk}
         obtain ⟨rfl, rfl⟩ := hs
         exact h
       · cases hs
-  | wApply => exact inv_step hg h (a := .wApply) rfl hs
-  | wPublish => exact inv_step hg h (a := .wPublish) rfl hs
-  | wAck => exact inv_step hg h (a := .wAck) rfl hs
-  | flushStart => exact inv_step hg h (a := .flushStart) rfl hs
-  | crash ch => exact inv_step hg h (a := .crash ch) rfl hs
-  | exit => exact inv_step hg h (a := .exit) rfl hs
-  | recOpen => exact inv_step hg h (a := .recOpen) rfl hs
-  | recStep => exact inv_step hg h (a := .recStep) rfl hs
-  | compactStart i => exact inv_step hg h (a := .compactStart i) rfl hs
-  | trBegin => exact inv_step hg h (a := .trBegin) rfl hs
-  | trPut r => exact inv_step hg h (a := .trPut r) rfl hs
-  | trCommit => exact inv_step hg h (a := .trCommit) rfl hs
-  | trDiscard => exact inv_step hg h (a := .trDiscard) rfl hs
+  | wApply => exact inv_step hg h (a := .wApply) rfl hlim hs
+  | wPublish => exact inv_step hg h (a := .wPublish) rfl hlim hs
+  | wAck => exact inv_step hg h (a := .wAck) rfl hlim hs
+  | flushStart => exact inv_step hg h (a := .flushStart) rfl hlim hs
+  | crash ch => exact inv_step hg h (a := .crash ch) rfl hlim hs
+  | exit => exact inv_step hg h (a := .exit) rfl hlim hs
+  | recOpen => exact inv_step hg h (a := .recOpen) rfl hlim hs
+  | recStep => exact inv_step hg h (a := .recStep) rfl hlim hs
+  | compactStart i => exact inv_step hg h (a := .compactStart i) rfl hlim hs
+  | trBegin => exact inv_step hg h (a := .trBegin) rfl hlim hs
+  | trPut r => exact inv_step hg h (a := .trPut r) rfl hlim hs
+  | trCommit => exact inv_step hg h (a := .trCommit) rfl hlim hs
+  | trDiscard => exact inv_step hg h (a := .trDiscard) rfl hlim hs
+
+theorem noSyncFault_of_noD10 {s : St} {a : Act} (h : a.noD10 s = true) : a.noSyncFault s = true := by
+  cases a <;> simp_all [Act.noD10, Act.noSyncFault]
+  repeat' split
+  all_goals first
+    | rfl
+    | (simp_all; done)
+
+/-- every step of the machine under storage faults: every failure of every storage operation except D10 and D26 -/
+theorem inv_step_faults {cfg : Cfg} (hg : cfg.Good) {s : St} {d : Disk}
+    (h : InvL cfg s d) {a : Act} (hcs : a.writerFaultFree = true ∨ cfg.consumeSeqOnJournalError = true)
+    (ha : a.faultsOK (s, d) = true) {s' : St} {d' : Disk}
+    (hs : step cfg s d a = some (s', d')) : InvL cfg s' d' := by
+  have ha' := ha
+  simp only [Act.faultsOK, Bool.and_eq_true] at ha'
+  exact ⟨inv_step_anyfault hg h.1 hcs (noSyncFault_of_noD10 ha'.1) (Or.inl ha'.2) h.2 hs,
+    limboSafe_step h.2 (Or.inl ha) hs⟩
+
+/-- the repaired configuration: D10 (commit 5cf4e90) and D26 (commits 8a67fea, 98bd5c2) -/
+structure Cfg.Repaired (cfg : Cfg) : Prop where
+  good : cfg.Good
+  cs : cfg.consumeSeqOnJournalError = true
+  d10 : cfg.discardKeepsTablesWhenUncertain = true
+  d26 : cfg.D26Repaired
+
+/-- **every step of the repaired machine under every storage fault but a failing manifest `Sync`** -/
+theorem inv_step_repaired {cfg : Cfg} (hr : cfg.Repaired) {s : St} {d : Disk}
+    (h : InvL cfg s d) {a : Act} (hsync : a.noSyncFault s = true) {s' : St} {d' : Disk}
+    (hs : step cfg s d a = some (s', d')) : InvL cfg s' d' :=
+  ⟨inv_step_anyfault hr.good h.1 (Or.inr hr.cs) hsync (Or.inr hr.d26) h.2 hs, Or.inr hr.d10⟩
+
+theorem invL_run {cfg : Cfg} {P : St × Disk → Act → Bool}
+    (hstep : ∀ s d a s' d', InvL cfg s d → P (s, d) a = true → step cfg s d a = some (s', d') → InvL cfg s' d')
+    {sd sd' : St × Disk} (h : InvL cfg sd.1 sd.2) (as : List Act)
+    (hal : Allowed cfg P sd as) (hr : run cfg sd as = some sd') : InvL cfg sd'.1 sd'.2 := by
+  induction as generalizing sd with
+  | nil =>
+    simp only [run] at hr
+    cases hr
+    exact h
+  | cons a as ih =>
+    simp only [run] at hr
+    unfold Allowed allowed at hal
+    rw [Bool.and_eq_true] at hal
+    obtain ⟨ha, hrest⟩ := hal
+    cases hst : step cfg sd.1 sd.2 a with
+    | none => rw [hst] at hr; simp at hr
+    | some sd1 =>
+      rw [hst] at hr hrest
+      simp only at hr hrest
+      exact ih (hstep sd.1 sd.2 a sd1.1 sd1.2 h ha hst) hrest hr
 
 theorem inv_run_faults {cfg : Cfg} (hg : cfg.Good) (hcs : cfg.consumeSeqOnJournalError = true) {sd sd' : St × Disk}
     (h : Inv cfg sd.1 sd.2) (as : List Act)
-    (hal : Allowed cfg Act.faultsOK sd as) (hr : run cfg sd as = some sd') : Inv cfg sd'.1 sd'.2 := by
-  induction as generalizing sd with
-  | nil =>
-    simp only [run] at hr
-    cases hr
-    exact h
-  | cons a as ih =>
-    simp only [run] at hr
-    unfold Allowed allowed at hal
-    rw [Bool.and_eq_true] at hal
-    obtain ⟨ha, hrest⟩ := hal
-    cases hst : step cfg sd.1 sd.2 a with
-    | none => rw [hst] at hr; simp at hr
-    | some sd1 =>
-      rw [hst] at hr hrest
-      simp only at hr hrest
-      exact ih (inv_step_faults hg h (Or.inr hcs) ha hst) hrest hr
-
-/-- the job faults alone (`Act.jobFaultsOnly`): no journal operation of the write path fails; no assumption on
-    `consumeSeqOnJournalError` is needed -/
-theorem inv_run_jobFaults {cfg : Cfg} (hg : cfg.Good) {sd sd' : St × Disk} (h : Inv cfg sd.1 sd.2)
-    (as : List Act)
-    (hal : Allowed cfg (fun sd a => a.jobFaultsOnly sd.1) sd as) (hr : run cfg sd as = some sd') :
-    Inv cfg sd'.1 sd'.2 := by
-  induction as generalizing sd with
-  | nil =>
-    simp only [run] at hr
-    cases hr
-    exact h
-  | cons a as ih =>
-    simp only [run] at hr
-    unfold Allowed allowed at hal
-    rw [Bool.and_eq_true] at hal
-    obtain ⟨ha, hrest⟩ := hal
-    have ha' := ha
-    simp only [Act.jobFaultsOnly, Bool.and_eq_true] at ha'
-    cases hst : step cfg sd.1 sd.2 a with
-    | none => rw [hst] at hr; simp at hr
-    | some sd1 =>
-      rw [hst] at hr hrest
-      simp only at hr hrest
-      refine ih (inv_step_faults hg h (Or.inl ha'.1.1) ?_ hst) hrest hr
-      simp only [Act.faultsOK, Bool.and_eq_true]
-      exact ⟨ha'.1.2, ha'.2⟩
+    (hal : Allowed cfg Act.faultsOK sd as) (hr : run cfg sd as = some sd') (hl : sd.1.limbo = none := by rfl) :
+    Inv cfg sd'.1 sd'.2 :=
+  (invL_run (fun _ _ _ _ _ h ha hs => inv_step_faults hg h (Or.inr hcs) ha hs) ⟨h, Or.inl hl⟩ as hal hr).1
 
 /-- the job faults alone (`Act.jobFaultsOnly`) are a special case -/
 theorem faultsOK_of_jobFaultsOnly {sd : St × Disk} {a : Act} (h : a.jobFaultsOnly sd.1 = true) :
     a.faultsOK sd = true := by
   simp only [Act.jobFaultsOnly, Act.faultsOK, Bool.and_eq_true] at h ⊢
   exact ⟨h.1.2, h.2⟩
+
+/-- the job faults alone (`Act.jobFaultsOnly`): no journal operation of the write path fails; no assumption on
+    `consumeSeqOnJournalError` is needed -/
+theorem inv_run_jobFaults {cfg : Cfg} (hg : cfg.Good) {sd sd' : St × Disk} (h : Inv cfg sd.1 sd.2)
+    (as : List Act)
+    (hal : Allowed cfg (fun sd a => a.jobFaultsOnly sd.1) sd as) (hr : run cfg sd as = some sd')
+    (hl : sd.1.limbo = none := by rfl) : Inv cfg sd'.1 sd'.2 :=
+  (invL_run (P := fun sd a => a.jobFaultsOnly sd.1) (fun s d a _ _ h ha hs => by
+    have ha' : a.jobFaultsOnly s = true := ha
+    have hf := faultsOK_of_jobFaultsOnly (sd := (s, d)) ha'
+    simp only [Act.jobFaultsOnly, Bool.and_eq_true] at ha'
+    exact inv_step_faults hg h (Or.inl ha'.1.1) hf hs) ⟨h, Or.inl hl⟩ as hal hr).1
+
+/-- the repaired machine, every storage fault but a failing manifest `Sync` -/
+theorem inv_run_repaired {cfg : Cfg} (hrep : cfg.Repaired) {sd sd' : St × Disk} (h : Inv cfg sd.1 sd.2) (as : List Act)
+    (hal : Allowed cfg (fun sd a => a.noSyncFault sd.1) sd as) (hr : run cfg sd as = some sd') :
+    Inv cfg sd'.1 sd'.2 :=
+  (invL_run (P := fun sd a => a.noSyncFault sd.1) (fun _ _ _ _ _ h ha hs => inv_step_repaired hrep h ha hs)
+    ⟨h, Or.inr hrep.d10⟩ as hal hr).1
 
 end GoLevel.Dur
